@@ -215,6 +215,37 @@ def run(ctx, idx):
     ctx.rule("C10.f", "Text is not reconstructed lossily: a converted numeric token is never re-stringified; token values are never concatenated across positions where ignored characters may have been skipped; quotes are removed positionally (v[1:-1]); the escape codec is byte-transparent for non-ASCII and decoding errors become SyntaxError.")
     ctx.rule("C10.g", "Malformed text is a syntax error: t_error and p_error raise SyntaxError on every path.")
     ctx.rule("C10.h", "The words that come back re-spelled are only those the recorded finding describes: over all unquoted words of up to five characters from a small alphabet (digits, e/E, point, signs, a letter), tokenised with the extracted token automata in PLY's order and derived with the extracted grammar, a word whose value differs from its text starts with a number in the syntax recorded with the finding (C10.f restringified-number). A word re-spelled through a numeric token outside that syntax is a new defect (a widened number pattern swallowing the head of a label or file name).")
+    ctx.rule("C10.i", "The lexer reads the text it was given: from_source and Parser.parse pass their text parameter on as it is - no splitlines / join, replace, strip or re-encoding before the token rules see it. A rewrite of the whole text cannot tell layout from the inside of a quoted string: `splitlines()` also breaks at form feed, vertical tab, NEL and the Unicode separators, which are ordinary string content to the lexer.")
+    from .C11 import text_reaches_lexer
+
+    text_reaches_lexer(ctx, idx, "C10.i", "characters inside quoted strings (form feed, vertical tab, U+0085, U+2028/9, a lone CR) are rewritten or dropped with the layout, so a string no longer comes back as its content")
+    ctx.rule("C10.j", "Only the lexer and the grammar reject text: Parser.parse and Program.from_source raise nothing on a test of the raw text before the PLY parse call (counting brackets or quotes, searching for a character) - such a test cannot tell program text from the inside of a quoted string or a comment, so it refuses well-formed files.")
+    n_pre = 0
+    for fn_, what_ in ((idx.func("mpilot.parser.parser", "Parser.parse"), "Parser.parse"), (idx.func("mpilot.program", "Program.from_source"), "Program.from_source")):
+        if fn_ is None:
+            raise AnalysisError("C10.j: %s vanished" % what_)
+        cfg_ = K.cfg_of(idx, fn_)
+        params_ = {a.arg for a in fn_.node.args.args[1:]}
+        pcalls = [c for c in cfg_.find("call") if isinstance(c.ast.func, ast.Attribute) and c.ast.func.attr == "parse"]
+        n_pre += len(pcalls)
+        con_ = "%s::no-rejection-on-the-raw-text" % fn_.key
+        early = None
+        for rz in cfg_.find("raise"):
+            if rz not in cfg_.reachable():
+                continue
+            before = rz in cfg_.reachable(avoid=set(pcalls))  # reachable without passing the parse call
+            if not before:
+                continue
+            guards = [t for t in cfg_.find("test") if cfg_.dominates(t, rz) and any(isinstance(x, ast.Name) and x.id in params_ and x.id not in ("libraries", "working_dir", "cls") for x in ast.walk(K.expand(fn_, t.ast)))]
+            textual = [t for t in guards if any(isinstance(x, ast.Call) and isinstance(x.func, ast.Attribute) and x.func.attr in ("count", "find", "index", "startswith", "endswith", "search", "match", "findall", "rfind", "partition", "split") for x in ast.walk(K.expand(fn_, t.ast)))
+                       or any(isinstance(x, ast.Compare) and any(isinstance(o, (ast.In, ast.NotIn)) for o in x.ops) and any(isinstance(y, ast.Constant) and isinstance(y.value, str) for y in [x.left]) for x in ast.walk(K.expand(fn_, t.ast)))]
+            if textual:
+                early = (rz, textual[0])
+        if early:
+            ctx.violate("C10.j", con_, K.rel(fn_), early[0].line, "%s raises on `%s`, a test of the raw text made before the lexer runs: a bracket, quote or keyword inside a quoted string or a comment counts like program text, so well-formed files are rejected" % (what_, K.src(early[1].ast)[:70]))
+        else:
+            ctx.hold("C10.j", con_, K.rel(fn_), fn_.node.lineno, "nothing is raised on the raw text before the parse call", nontrivial=False)
+    ctx.floor("C10.j", "parse call sites on the loading path", n_pre, 2)
     L = grammar.Lexicon(idx)
     rel = L.mod.rel
     dfas = {r.name: RL.dfa(r.pattern) for r in L.rules}
